@@ -86,7 +86,7 @@ class DownAsm:
         return None
 
 
-def mon_c03(k, domain, password, up_frames, wildcard=False, srv="srv"):
+def mon_c03(k, domain, password, up_frames, wildcard=False, srv="srv", check_ip=True):
     """Returns (violations, stats, kinds) - kinds = set of (effect, verdict) classes observed."""
     dl = _domain_labels(domain, wildcard)
     viol = []
@@ -99,6 +99,7 @@ def mon_c03(k, domain, password, up_frames, wildcard=False, srv="srv"):
     authed = {}      # slot -> bool
     rawauthed = {}
     vack_in_interval = set()
+    locked = {}
     all_challenges = []
     rebind_ok = set()      # slots for which a correct (raw) login arrived since the previous snapshot
     by_dgram = {}    # datagram bytes -> frame bytes
@@ -234,6 +235,7 @@ def mon_c03(k, domain, password, up_frames, wildcard=False, srv="srv"):
                     uid = p[8]
                     ch[uid] = struct.unpack(">I", p[4:8])[0]
                     all_challenges.append(ch[uid])
+                    locked[uid] = False
                     authed[uid] = False
                     rawauthed[uid] = False
                     vack_in_interval.add(uid)
@@ -267,9 +269,18 @@ def mon_c03(k, domain, password, up_frames, wildcard=False, srv="srv"):
                 if len(raw) >= 3 and p == raw[1:3]:
                     effect = "fragsize-set"
             if effect:
-                if authed.get(uid):
+                if authed.get(uid) and not check_ip and locked.get(uid) and effect in ("codec-switched", "option-set", "fragsize-set"):
+                    # without source checking the server cannot tell on whose behalf a request comes; that is what the options
+                    # lock is for: once a session has set its fragment size (end of its handshake) its codec, options and
+                    # fragment size stay as they are until the slot is handed out again
+                    bad("C03:options-changed-after-lock",
+                        "with -c, the server answered %r to a %s request for slot %r after that session had completed its handshake (fragment size set)"
+                        % (p[:12], c.decode().upper(), uid), ev, slot=uid, query=b".".join(m.qd[0][0])[:90].decode("latin1"))
+                elif authed.get(uid):
                     st["c03_priv_accepted"] += 1
                     kinds.add((effect, "authorised"))
+                    if effect == "fragsize-set":
+                        locked[uid] = True
                 else:
                     bad("C03:%s-without-login" % effect,
                         "server answered %r to a %s request naming slot %r, which has not answered its current challenge"
